@@ -180,6 +180,9 @@ def run(ck, F, E):
         ok_set = {"Interpreter.output": "the transcript", "Program.location": "the token cursor",
                   "Program.stack": "function-call frames, pushed and popped in pairs (see FRAME rule)",
                   "Interpreter.rng": "RND advances the generator: specified behaviour (C18)"}
+        import panics
+        for k_, v_ in panics.balanced_counter_fields(F).items():
+            ok_set["Program.%s" % k_] = v_
         for name in sorted(tops):
             if name in ok_set:
                 ck.ok("C07:EFFECT:print:%s" % name, "inspection effects", "allowed: " + ok_set[name], "", pr.span, nontrivial=False)
@@ -207,33 +210,25 @@ def run(ck, F, E):
                    "expected one push/pop pair in evaluate_user_defined_function_call (push %d, pop %d)" % (len(pushes), len(pops)), ud.span)
         if len(pushes) == 1 and pops:
             import vetted
-            # start: the Continue arm of push(..)?
-            start = None
-            for brc in ud.calls():
-                if brc.callee.endswith("::branch") and brc.args:
-                    e = ud.expr(brc.args[0])
-                    if e[0] == "call" and len(e) > 3 and e[3] is pushes[0] and brc.target is not None:
-                        info = ud.switch_info(brc.target)
-                        if info and info[3]:
-                            for v, n in info[3].items():
-                                if n == "Continue":
-                                    start = info[1].get(v, info[2])
-            bad_exits = []
-            if start is not None:
-                for r in ud.return_blocks():
-                    if r in ud.blocks_reachable_from(start) and _reaches_avoiding(ud, start, r, {p.bb for p in pops}):
-                        bad_exits.append(r)
-            if start is None:
-                ck.missing("C07:PAIR:start", "the success arm of the frame push")
-            elif bad_exits:
-                ck.bad("C07:PAIR:expression::evaluate_user_defined_function_call:push/pop:err-exit", "frame pairing",
-                       "after a successful push_function_call_onto_stack_and_goto_it there is a path to return that does not pass "
-                       "pop_function_call_off_stack_and_return_from_it (the `?` exit of the body evaluation): a failing FN call leaves "
-                       "its frame and parameter binding on the stack -- at a breakpoint, CONT then reads the parameter instead of the "
-                       "program's variable", pops[0].span)
+            counts = vetted.fn_call_frame_counts(F, ud, poppers)
+            key = "C07:PAIR:expression::evaluate_user_defined_function_call:push/pop:err-exit"
+            if counts is None:
+                ck.missing("C07:PAIR:start", "the paths of evaluate_user_defined_function_call")
             else:
-                ck.ok("C07:PAIR:expression::evaluate_user_defined_function_call:push/pop:err-exit", "frame pairing",
-                      "every path from the successful push to any return passes the pop")
+                leaks = sum(1 for (pushed, n, early) in counts if pushed and n == 0)
+                extra = sum(1 for (pushed, n, early) in counts if n > 1 or early or (n and not pushed))
+                ck.note("C07.frame_paths", {"paths": len(counts), "with_push": sum(1 for c_ in counts if c_[0]), "leaks": leaks, "extra_pops": extra})
+                if leaks:
+                    ck.bad(key, "frame pairing",
+                           "after a successful push_function_call_onto_stack_and_goto_it there are %d paths to return that take no frame "
+                           "off again (the `?` exit of the body evaluation): a failing FN call leaves its frame and parameter binding on "
+                           "the stack -- at a breakpoint, CONT then reads the parameter instead of the program's variable" % leaks, pops[0].span)
+                else:
+                    ck.ok(key, "frame pairing", "every path from the successful push to any return takes the frame off again")
+                ck.require(not extra, "C07:PAIR:expression::evaluate_user_defined_function_call:push/pop:extra-pop", "frame pairing",
+                           "no path takes off more frames than the one it pushed",
+                           "%d paths of evaluate_user_defined_function_call take more frames off the stack than they pushed: an FN call "
+                           "in an immediate PRINT at a breakpoint removes a GOSUB frame of the interrupted program" % extra, pops[0].span)
 
     # ---- breaking at an INPUT prompt and CONTinuing re-executes the INPUT statement: it must do nothing until a reply exists
     from props.C08 import await_rule
